@@ -120,3 +120,54 @@ Proof. intros [HT _] Hi. unfold timeseries. rewrite (nth_map_lt _ _ _ []) by lia
 Theorem spectrum_value fr m j : (j < F fr)%nat ->
   nth j (spectrum fr m) 0 = (let s := qsum (column (data fr) j) in if m then s / nq (T fr) else s).
 Proof. intros Hj. unfold spectrum. now rewrite nth_tab. Qed.
+
+(* ---------------- normalisation: an affine map of the integrated vector ---------------- *)
+Lemma nq_S n : nq (S n) == nq n + 1.
+Proof. unfold nq. rewrite Nat2Z.inj_succ. unfold Z.succ. rewrite inject_Z_plus. reflexivity. Qed.
+Lemma nq_len_nz {A} (l : list A) : l <> [] -> ~ nq (length l) == 0.
+Proof. intros Hl. unfold nq. destruct l; [congruence|]. cbn [length]. intros E. unfold Qeq in E. cbn in E. lia. Qed.
+Lemma normalise_length m s l : length (normalise m s l) = length l.
+Proof. apply map_length. Qed.
+Lemma qsum_normalise m s l : ~ s == 0 -> qsum (normalise m s l) == (qsum l - nq (length l) * m) / s.
+Proof.
+  intros Hs. unfold normalise, qsum. induction l as [|x l IH]; cbn [map fold_right length].
+  - unfold nq. cbn. field. exact Hs.
+  - rewrite IH, nq_S. field. exact Hs.
+Qed.
+Theorem normalise_mean m s l : l <> [] -> ~ s == 0 -> vmean (normalise m s l) == (vmean l - m) / s.
+Proof.
+  intros Hl Hs. unfold vmean. rewrite normalise_length, qsum_normalise by exact Hs. field.
+  repeat split; first [exact Hs | now apply nq_len_nz].
+Qed.
+Lemma vsumsq_proper l mu1 mu2 : mu1 == mu2 -> vsumsq l mu1 == vsumsq l mu2.
+Proof. intros E. induction l as [|x l IH]; cbn [vsumsq]; [reflexivity|]. rewrite IH, E. reflexivity. Qed.
+Lemma vsumsq_normalise m s mu l : ~ s == 0 -> vsumsq (normalise m s l) ((mu - m) / s) == vsumsq l mu / (s * s).
+Proof.
+  intros Hs. unfold normalise. induction l as [|x l IH]; cbn [map vsumsq].
+  - field. exact Hs.
+  - rewrite IH. field. exact Hs.
+Qed.
+Theorem normalise_var m s l : l <> [] -> ~ s == 0 -> vvar (normalise m s l) == vvar l / (s * s).
+Proof.
+  intros Hl Hs. unfold vvar. rewrite normalise_length.
+  rewrite (vsumsq_proper _ _ _ (normalise_mean m s l Hl Hs)), vsumsq_normalise by exact Hs.
+  field. repeat split; first [exact Hs | now apply nq_len_nz].
+Qed.
+(* with the vector's own mean and deviation (what the sigma clipping returns when it rejects nothing): mean 0, variance 1 *)
+Theorem normalise_standard s l : l <> [] -> ~ s == 0 -> s * s == vvar l ->
+  vmean (normalise (vmean l) s l) == 0 /\ vvar (normalise (vmean l) s l) == 1.
+Proof.
+  intros Hl Hs Hv. split.
+  - rewrite normalise_mean by assumption. field. exact Hs.
+  - rewrite normalise_var by assumption. rewrite <- Hv. field. exact Hs.
+Qed.
+(* values keep their order (s > 0), so the normalised spectrum / time series peaks where the integration does *)
+Theorem normalise_monotone m s x y : 0 < s -> x <= y -> (x - m) / s <= (y - m) / s.
+Proof.
+  intros Hs Hxy. unfold Qdiv. apply Qmult_le_compat_r; [lra|]. apply Qlt_le_weak, Qinv_lt_0_compat. exact Hs.
+Qed.
+Theorem normalise_nth m s l i : (i < length l)%nat -> nth i (normalise m s l) 0 == (nth i l 0 - m) / s.
+Proof.
+  intros Hi. unfold normalise. rewrite (nth_indep _ 0 ((0 - m) / s)) by (rewrite map_length; exact Hi).
+  rewrite (map_nth (fun x => (x - m) / s) l 0 i). reflexivity.
+Qed.
